@@ -142,6 +142,21 @@ func (rn *runner) streamRoots(g *gen) {
 			if g.r.Intn(6) == 0 {
 				g.placeRoot(c, x, 2)
 			}
+			if g.r.Intn(25) == 0 && x.Form == apd.Finite && !x.IsZero() {
+				// operands at the ends of the package's exponent range under the widest context: the square of
+				// the root (exponent 2·e) and the shifted iterate leave the range the intermediate steps can hold
+				c.MaxExponent, c.MinExponent = 100000, -100000
+				if g.r.Intn(2) == 0 { // an exact root there
+					m := g.coeff(1 + g.r.Intn(p))
+					x.Coeff.SetMathBigInt(new(big.Int).Mul(m, m))
+				}
+				nd := x.NumDigits()
+				if g.r.Intn(2) == 0 {
+					x.Exponent = int32(-100000 + 2*int64(g.r.Intn(6)))
+				} else {
+					x.Exponent = int32(100000 - nd + 1 - int64(g.r.Intn(12)))
+				}
+			}
 			rn.ctxCase("sqrt", c, x, nil, 0)
 		} else {
 			if c.Precision > 20 {
